@@ -27,7 +27,7 @@ def plan(tier):
     return {"shards": 16, "timeout": 1200 if tier == "quick" else 5 * 3600,
             "required_monitors": ["row-multiset", "variable-values", "volume-conservation", "point-probes",
                                   "lmax-meta"],
-            "required_tags": ["cap-below-levelmax", "refined-at-cap", "combined-predicate", "strict-less",
+            "required_tags": ["level-predicate-as-integer-flags", "cap-below-levelmax", "refined-at-cap", "combined-predicate", "strict-less",
                               "open-interval", "with-part"]}
 
 
@@ -118,8 +118,20 @@ def run_case(case, ctx, res):
     try:
         rs.write(model, path)
         select = {"mesh": sel.to_select(osy, preds)}
+        flags = ""
+        if case["i"] % 4 == 3:
+            # the same predicate written with 0/1 flags instead of booleans ((l <= k) * 1, np.where(l <= k, 1, 0)):
+            # any function whose result is true exactly for the accepted levels is a level predicate
+            f0 = select["mesh"]["level"]
+            if case["i"] % 8 == 3:
+                select["mesh"]["level"] = lambda a, f0=f0: f0(a) * 1
+                flags = " written as (..) * 1"
+            else:
+                select["mesh"]["level"] = lambda a, f0=f0: np.where(f0(a), 1, 0)
+                flags = " written as np.where(.., 1, 0)"
+            res.tag("level-predicate-as-integer-flags")
         out, _, opened = iom.load(osy, path, spec["nout"], select=select)
-        what = f"load(select level {form} {k}{' & ' + extra['var'] if extra else ''}) [cap L={L}]"
+        what = f"load(select level {form} {k}{flags}{' & ' + extra['var'] if extra else ''}) [cap L={L}]"
         if not mask.any():
             # nothing qualifies: an empty/absent mesh group (or an error saying so) is all that can be demanded
             res.count("empty-selection")
